@@ -236,7 +236,10 @@ pub fn genimg(opts: &Opts) -> i32 {
             return 3;
         }
     };
-    let nkeys = rng.range(2, 10);
+    let nkeys = match opts.u64("nkeys", 0) {
+        0 => rng.range(2, 10),
+        n => n,
+    };
     let now = store.get_timestamp_pub();
     let hour = 3_600_000_000_000u64;
     for i in 0..nops {
